@@ -23,10 +23,35 @@ def corpus():
         {"eps": 2, "ops": [[W, 1, None, False]]},
         # metadata first provided late (retroactive labelling), then changed at a boundary
         {"eps": 2, "ops": [[M, 1, 3], [M, 2, 4], [W, 0, None, True], [W, 0, 1, True], [W, 0, 2, True], [W, 0, 2, True], [W, 0, 1, True]]},
+        # a change in the middle of a shard followed by more than a shard of the new value
+        {"eps": 4, "ops": [[M, 1, 1], [M, 2, 2]] + [[W, 0, 1, True]] * 2 + [[W, 0, 2, True]] * 9},
+        # metadata first provided right after an exact multiple of the shard size
+        {"eps": 4, "ops": [[M, 1, 1]] + [[W, 0, None, True]] * 4 + [[W, 0, 1, True]] * 3},
     ]
 
 
+def gen_runs_case(rng):
+    """One or two splits; the metadata value is held for runs whose lengths straddle the shard size, so that changes fall in the
+    middle of shards and are followed by more than a shard of the new value (and metadata may start late, at or off a boundary)."""
+    eps = rng.choice([2, 3, 4, 4, 5])
+    nobj = rng.choice([2, 3])
+    ops = [["M", o, o] for o in range(1, nobj + 1)]
+    splits = rng.sample([0, 1, 2], rng.choice([1, 1, 2]))
+    cur = {s: rng.choice([None, 1, 2]) for s in splits}
+    left = {s: rng.choice([1, 2, eps - 1, eps, eps + 1, 2 * eps]) for s in splits}
+    for _ in range(rng.choice([2, 3, 4]) * eps + rng.choice([0, 1, 2, 3])):
+        s = rng.choice(splits)
+        if left[s] <= 0:
+            cur[s] = rng.choice([v for v in list(range(1, nobj + 1)) + [None] if v != cur[s]])
+            left[s] = rng.choice([1, eps - 1, eps, eps + 1, eps + 2, 2 * eps + 1])
+        ops.append(["W", s, cur[s], True])
+        left[s] -= 1
+    return {"eps": eps, "ops": ops}
+
+
 def gen_case(rng):
+    if rng.random() < 0.25:
+        return gen_runs_case(rng)
     eps = rng.choice([1, 1, 2, 2, 3, 3, 4, 5])
     nsplits = rng.choice([1, 1, 2, 3])
     splits = rng.sample([0, 1, 2], nsplits)
